@@ -213,6 +213,17 @@ impl Prop for C07 {
                                             );
                                         }
                                     }
+                                    (Lim::Known(0), Lim::Known(0)) => {
+                                        // a further completion in an exhausted stay: any action pending in
+                                        // this call is withdrawn and LimitReached raised again
+                                        obs.hit("completion_after_limit_used_up");
+                                        if !raised {
+                                            return fail(
+                                                "limit-reached-not-raised-on-exhausted-limit",
+                                                format!("call {ci}: machine {m} in state {}: a completion arrived with the limit already used up (or sampled as 0) but the pending action was not withdrawn and LimitReached raised", mon.cur),
+                                            );
+                                        }
+                                    }
                                     (_, Lim::Known(r)) if r > 0 => {
                                         if raised_any {
                                             return fail(
@@ -460,7 +471,7 @@ impl Prop for C07 {
         vec![
             "the verif hook's step log (deliveries, sampled targets, schedulings, withdrawals) and snapshot (remaining limit) are faithful",
             "packet and time budgets are unlimited in this domain, so only the per-state limit can withhold an action",
-            "additional LimitReached events after the limit is already used up are not judged (the statement does not forbid them)",
+            "a completion that arrives when the limit is already used up (or was sampled as 0) must again withdraw the pending action and raise LimitReached (behaviour of the pinned tree, also fixed by C05's reference semantics)",
         ]
     }
 
